@@ -26,15 +26,15 @@ def hexVal (c : Char) : Option Nat :=
   else if 'A' ≤ c ∧ c ≤ 'F' then some (c.toNat - 'A'.toNat + 10)
   else none
 
-def hexBytesGo : List Char → List UInt8 → Option (List UInt8)
+def parseHexBytesGo : List Char → List UInt8 → Option (List UInt8)
   | [], acc => some acc.reverse
   | [_], _ => none
   | a :: b :: rest, acc =>
     match hexVal a, hexVal b with
-    | some x, some y => hexBytesGo rest ((16 * x + y).toUInt8 :: acc)
+    | some x, some y => parseHexBytesGo rest ((16 * x + y).toUInt8 :: acc)
     | _, _ => none
 
-def hexBytes (s : String) : Option (List UInt8) := hexBytesGo s.toList []
+def parseHexBytes (s : String) : Option (List UInt8) := parseHexBytesGo s.toList []
 
 def commaList {α : Type} [ToString α] (xs : List α) : String := ",".intercalate (xs.map toString)
 
@@ -149,7 +149,7 @@ def gmOp (ws : List String) : String :=
     let ints := (rest.take nInts).map (fun s => s.toInt?.getD 0)
     match rest.drop nInts with
     | [hex] =>
-      match hexBytes hex with
+      match parseHexBytes hex with
       | none => "GM bad-hex"
       | some bytes =>
         let prev : Array (Array Int) :=
@@ -175,7 +175,7 @@ def handleLine (st : ObuState) (line : String) : IO ObuState := do
     IO.println "reset"
     return {}
   | ["HDR", hex] =>
-    match hexBytes hex with
+    match parseHexBytes hex with
     | none => IO.println "HDR ok=0 err=bad-hex nobu=0 types="; return st
     | some bytes =>
       let (a, n, types, _) := processObus (-1) true st bytes
@@ -185,7 +185,7 @@ def handleLine (st : ObuState) (line : String) : IO ObuState := do
       return a.st
   | ["PKT", idx, hex] =>
     let i : Int := idx.toInt?.getD 0
-    match hexBytes hex with
+    match parseHexBytes hex with
     | none => IO.println s!"pkt={i} ok=0 err=bad-hex nobu=0 types= td_first=0 seqhdr=0 seqhdr_same_as_first=0 seqhdr_same_as_api=0 shown=0 frames=0"; return st
     | some bytes =>
       let (a, n, types, tu) := processObus i false st bytes
